@@ -316,15 +316,6 @@ Definition cv_indexed_shared (r fd : nat) (idx : list nat) (k m : nat) (st : sta
     end
   end.
 
-(* createCVBatch(R[r], k) with the drawn permutation of the batch indices: the set is only copied (pointers) *)
-Definition cv_batch_shared (r fd : nat) (bperm : list nat) (k : nat) (st : state) : option (state * list (list nat)) :=
-  let nb := length (h_ids (hnd st r)) in
-  if (k =? 0) || negb (length bperm =? nb) || negb (forallb (fun i => i <? nb) bperm) then None else
-  match step (OCopy r fd) st with
-  | Some st1 => Some (st1, chunk (val_sizes nb k) bperm)
-  | None => None
-  end.
-
 (* CVFolds::validation(p) / training(p) assigned to R[q]: indexedSubset of the dataset kept by the fold object *)
 Definition fold_validation_shared (fd q : nat) (folds : list (list nat)) (p : nat) : op :=
   OSubset fd q (nth p folds []).
